@@ -17,8 +17,14 @@ mkdir -p $S/SEED; cp $D/demo.py $S/SEED/
 TESTS=$( cd $S && timeout 1800 /venv/bin/python -m pytest -q -p no:cacheprovider --timeout=900 --continue-on-collection-errors 2>&1 | tail -1 )
 echo "demo pristine exit=$PRISTINE mutant exit=$MUT tests(mutant): $TESTS"
 tail -3 $S/demo_out.txt | cut -c1-200
+# our check against the patched scratch copy (STBEM_REPO; /repo itself stays untouched so that concurrent runs are not disturbed;
+# SEED_IN_REPO=1 applies the patch to /repo instead and undoes it straight afterwards)
+rm -rf $S/SEED $S/demo_out.txt
+if [ "${SEED_IN_REPO:-0}" = "1" ]; then
+  git -C /repo apply $D/patch.diff && ( cd /verif && timeout 3000 ./check $P --tier quick > $D/check_output.txt 2>&1; echo "check exit=$?" | tee -a $D/check_output.txt ); git -C /repo checkout -- .
+else
+  ( cd /verif && STBEM_REPO=$S timeout 3000 ./check $P --tier quick > $D/check_output.txt 2>&1; echo "check exit=$?" | tee -a $D/check_output.txt )
+fi
 rm -rf $S
-# our check against the change applied to /repo itself, undone straight afterwards
-git -C /repo apply $D/patch.diff && ( cd /verif && timeout 3000 ./check $P --tier quick > $D/check_output.txt 2>&1; echo "check exit=$?" | tee -a $D/check_output.txt ); git -C /repo checkout -- .
 grep -c "^VIOLATION" $D/check_output.txt; grep "^VIOLATION" $D/check_output.txt | head -3 | cut -c1-250; tail -2 $D/check_output.txt | cut -c1-250
 git -C /repo status --short | head -3
